@@ -1,0 +1,30 @@
+//go:build verif
+
+package nas
+
+// Contracts for the deductive check in /verif (comment-only; compiled only with -tags verif).
+
+// ---- C01 / C05: decode entry points ----
+
+//@ func GetEPD(byteArray) (epd)
+//@   requires len(byteArray) >= 1
+//@   ensures epd == byteArray[0]
+//@ end
+
+//@ func GetSecurityHeaderType(byteArray) (sht)
+//@   requires len(byteArray) >= 2
+//@   ensures sht == byteArray[1]
+//@ end
+
+// PlainNasDecode: no precondition at all (nil pointer, nil slice, empty slice are in its domain).
+//@ func (a *Message) PlainNasDecode(byteArray) (err)
+//@ end
+
+// The two family decoders take a byte string: a nil *pointer* is not one (the nil guard is PlainNasDecode's).
+//@ func (a *Message) GmmMessageDecode(byteArray) (err)
+//@   requires byteArray != nil
+//@ end
+
+//@ func (a *Message) GsmMessageDecode(byteArray) (err)
+//@   requires byteArray != nil
+//@ end
